@@ -844,6 +844,42 @@ fn some_fields<'a>(rng: &mut Rng, m: &'a mut Model, want: usize) -> Vec<&'a mut 
     out
 }
 
+/// A misspelling of `word`: adjacent letters swapped, a letter dropped or doubled, or a suffix added.
+fn typo(rng: &mut Rng, word: &str) -> String {
+    let mut c: Vec<char> = word.chars().collect();
+    if c.len() < 3 {
+        return format!("{word}x");
+    }
+    match rng.below(5) {
+        0 => {
+            let i = rng.range(1, (c.len() - 2) as u64) as usize;
+            c.swap(i, i + 1);
+        },
+        1 => {
+            let i = rng.range(1, (c.len() - 1) as u64) as usize;
+            c.remove(i);
+        },
+        2 => {
+            let i = rng.usize(c.len());
+            let ch = c[i];
+            c.insert(i, ch);
+        },
+        3 => {
+            return format!("{word}{}", rng.pick(&["ing", "able", "s", "Trait", "ering"]));
+        },
+        _ => {
+            let i = rng.range(1, (c.len() - 1) as u64) as usize;
+            c[i] = if c[i] == 'e' { 'a' } else { 'e' };
+        },
+    }
+    let out: String = c.into_iter().collect();
+    if out == word {
+        format!("{word}x")
+    } else {
+        out
+    }
+}
+
 fn inject(rng: &mut Rng, m: &mut Model, class: &str) {
     // how many independent instances of this fault
     let k = if rng.chance(3, 4) { rng.range(2, 4) } else { 1 } as usize;
@@ -858,15 +894,20 @@ fn inject(rng: &mut Rng, m: &mut Model, class: &str) {
             }
         },
         "unsupported_traits" => {
-            let mut names = vec!["Serialize", "Display", "Foo", "Send", "FromStr", "std::fmt::Binary"];
+            // unknown names: other crates' traits, and misspellings of the supported ones
+            let mut names: Vec<String> = ["Serialize", "Display", "Foo", "Send", "FromStr", "std::fmt::Binary"].iter().map(|s| s.to_string()).collect();
+            for _ in 0..4 {
+                let t = *rng.pick(&TRAITS);
+                names.push(typo(rng, t));
+            }
             rng.shuffle(&mut names);
             for n in names.into_iter().take(k) {
                 if rng.chance(2, 3) {
-                    m.type_frags.push(n.to_string());
+                    m.type_frags.push(n.clone());
                 } else if let Some(f) = some_fields(rng, m, 1).pop() {
-                    f.attrs.push(n.to_string());
+                    f.attrs.push(n.clone());
                 } else {
-                    m.type_frags.push(n.to_string());
+                    m.type_frags.push(n.clone());
                 }
             }
         },
@@ -1056,11 +1097,20 @@ fn inject(rng: &mut Rng, m: &mut Model, class: &str) {
             }
         },
         "incorrect_format" => {
-            let mut bad = vec![
+            let mut bad: Vec<String> = [
                 "Clone = 1", "Hash()", "Debug(nme = false)", "Default(expression)", "PartialOrd(rank = 1)",
                 "Eq(ignore)", "Copy = false", "Ord(method)", "PartialEq(bound)", "Into", "Into = u8", "Deref(x)",
                 "Debug(name)", "Debug(named_field = 3)", "Default = ", "Hash(bound(T))",
-            ];
+            ]
+            .iter()
+            .map(|s| s.to_string())
+            .collect();
+            // misspelled parameter names
+            for (tr, param, rest) in [("Debug", "name", " = false"), ("Ord", "rank", " = 1"), ("Hash", "ignore", ""), ("Clone", "method", "(f)"), ("Default", "expression", " = 1"), ("PartialEq", "bound", "(*)")] {
+                if rng.chance(1, 2) {
+                    bad.push(format!("{tr}({}{rest})", typo(rng, param)));
+                }
+            }
             rng.shuffle(&mut bad);
             for b in bad.into_iter().take(k) {
                 if b == "Default = " {
@@ -1108,10 +1158,16 @@ fn inject(rng: &mut Rng, m: &mut Model, class: &str) {
 
 /// Generate one derive input as source text. `name` becomes the type identifier.
 pub fn generate(rng: &mut Rng, name: &str, opts: &GenOpts) -> String {
+    generate_ex(rng, name, opts, &[]).0
+}
+
+/// As `generate`; `force` = fault classes that must be injected (an *error sibling* of another
+/// input: the same kind of mistake made again, differently). Returns the classes injected.
+pub fn generate_ex(rng: &mut Rng, name: &str, opts: &GenOpts, force: &[&'static str]) -> (String, Vec<&'static str>) {
     let mut m = build_model(rng, name, opts);
-    let mut classes: Vec<&str> = vec![];
-    if rng.chance(opts.error_pct, 100) {
-        let n = rng.range(1, 3);
+    let mut classes: Vec<&'static str> = force.to_vec();
+    if !force.is_empty() || rng.chance(opts.error_pct, 100) {
+        let n = if force.is_empty() { rng.range(1, 3) } else { rng.below(2) };
         for _ in 0..n {
             classes.push(*rng.pick(&FAULT_CLASSES));
         }
@@ -1130,7 +1186,7 @@ pub fn generate(rng: &mut Rng, name: &str, opts: &GenOpts) -> String {
         let extra = *rng.pick(&["#[educe]\n", "#[educe = \"Debug\"]\n", "#[educe()]\n"]);
         s = s.replacen("#[derive(Educe)]\n", &format!("#[derive(Educe)]\n{extra}"), 1);
     }
-    s
+    (s, classes)
 }
 
 /// A polluter that reuses `name` with a different body: defeats any cache keyed by identifier.
